@@ -27,8 +27,19 @@ def main():
     ap.add_argument("--runs", type=int)
     ap.add_argument("--with-tests", action="store_true")
     ap.add_argument("--dir", default=os.path.join(VERIF, "mutants"))
+    ap.add_argument("--seeded", action="store_true", help="use /verif/seeded/<id>/{patch.diff,meta.json} (changes written by independent sub-agents)")
     a = ap.parse_args()
-    cat = json.load(open(os.path.join(a.dir, "catalog.json")))
+    if a.seeded:
+        a.dir = os.path.join(VERIF, "seeded")
+        cat = []
+        for d in sorted(os.listdir(a.dir)):
+            mp = os.path.join(a.dir, d, "meta.json")
+            if os.path.exists(mp):
+                meta = json.load(open(mp))
+                cat.append({"name": d, "properties": meta.get("checks") or [meta["property"]], "file": os.path.join(d, "patch.diff"),
+                            "expect": meta.get("expect", "detected"), "runs": meta.get("runs")})
+    else:
+        cat = json.load(open(os.path.join(a.dir, "catalog.json")))
     rows = []
     ok_all = True
     for m in cat:
